@@ -401,6 +401,9 @@ def gen_disparate_loads(rng):
     """a small load next to a very large one: the small step in the diagrams is still a step"""
     s = gen_beam(rng)
     b = s.bars[0]
+    # a cantilever clamped at its start: the large force is carried through the whole span, the small steps sit on top of it
+    s.nodes[b["n1"]] = s.nodes[b["n1"]][:2] + ((True, True, True),)
+    s.nodes[b["n2"]] = s.nodes[b["n2"]][:2] + ((False, False, False),)
     big = Fr(rng.choice([150000, 200000, -180000]))
     s.loads = [{"kind": "c", "term": "fy", "local": True, "bar": b["id"], "t": Fr(1) if not any(s.nodes[b["n2"]][2]) else Fr("0.75"), "v": big},
                {"kind": "c", "term": "fy", "local": True, "bar": b["id"], "t": Fr("0.5"), "v": Fr(rng.choice([1, -2, 3]))},
